@@ -86,7 +86,7 @@ class CallMixin:
                     out.append((s2, SStr(L.tail(o.t))))
                 elif attr == 'attrib':
                     out.append((s2, SDictAttrib(o.t)))
-                elif attr in ('find', 'findall', 'remove', 'insert', 'append', 'get', 'iter'):
+                elif attr in ('find', 'findall', 'findtext', 'remove', 'insert', 'append', 'get', 'iter'):
                     out.append((s2, SFunc(None, self_val=o, builtin='Element.' + attr)))
                 else:
                     raise ToolLimit('Element.%s' % attr)
@@ -472,8 +472,25 @@ class CallMixin:
                 out.append((s, NONE))
         return out
 
+    def _cls_name(self, c):
+        return c.cls if isinstance(c.cls, str) else c.cls.name
+
+    def bi_issubclass(self, f, pos, kws, st, ln):
+        a, b = pos
+        if isinstance(a, SCls) and isinstance(b, SCls) and not isinstance(a.cls, str) and not isinstance(b.cls, str):
+            return [(st, SBool(a.cls.is_subclass_of(b.cls)))]
+        if isinstance(a, SSymCls) and isinstance(b, SCls) and not isinstance(b.cls, str):
+            # a symbolic class is a subclass of b iff it is one of b's (finitely many) repository subclasses
+            subs = [c for c in self.repo.classes.values() if c.is_subclass_of(b.cls)]
+            return [(st, SBool(z3.Or(*[a.t == self.W.clsconst(c.name) for c in subs])))]
+        raise ToolLimit('issubclass(%r, %r)' % (a, b))
+
     def bi_isinstance(self, f, pos, kws, st, ln):
-        raise ToolLimit('isinstance')
+        a, b = pos
+        if isinstance(a, SObj) and isinstance(b, SCls) and not isinstance(b.cls, str) and '$cls' not in st.fields(a) \
+                and a.cls.name != 'MosFile':
+            return [(st, SBool(a.cls.is_subclass_of(b.cls)))]
+        raise ToolLimit('isinstance(%r, %r)' % (a, b))
 
     def bi_all(self, f, pos, kws, st, ln):
         v = pos[0]
@@ -500,6 +517,11 @@ class CallMixin:
         return c.apply(self, st, {'xs': pos[0]})
 
     def bi_sorted(self, f, pos, kws, st, ln):
+        xs = pos[0]
+        items = xs.items if isinstance(xs, STuple) else (xs.concrete if isinstance(xs, SList) else None)
+        if items is not None and len(items) == 2 and all(isinstance(x, SInt) for x in items):
+            a, b = items
+            return [(st, SList.of([SInt(z3.If(a.t <= b.t, a.t, b.t)), SInt(z3.If(a.t <= b.t, b.t, a.t))]))]
         c = self.contracts.get('builtin.sorted')
         if c is None:
             raise ToolLimit('sorted() needs the assumed contract builtin.sorted')
@@ -719,10 +741,14 @@ class CallMixin:
 
     def bi_str_startswith(self, f, pos, kws, st, ln):
         self.assumed_used.add('A-STR')
+        if isinstance(pos[0], STuple):
+            return [(st, SBool(z3.Or(*[L.s_startswith(f.self_val.t, x.t) for x in pos[0].items])))]
         return [(st, SBool(L.s_startswith(f.self_val.t, pos[0].t)))]
 
     def bi_str_endswith(self, f, pos, kws, st, ln):
         self.assumed_used.add('A-STR')
+        if isinstance(pos[0], STuple):
+            return [(st, SBool(z3.Or(*[L.s_endswith(f.self_val.t, x.t) for x in pos[0].items])))]
         return [(st, SBool(L.s_endswith(f.self_val.t, pos[0].t)))]
 
     # --- Element methods (A-ET-LIST, A-ET-FIND)
@@ -735,6 +761,17 @@ class CallMixin:
                 return [(st, SNode(L.note_path(p.t)))]
             raise ToolLimit('ElementPath expression %r' % t.py)
         return [(st, SNode(st.heap.find(p.t, t.t)))]
+
+    def bi_Element_findtext(self, f, pos, kws, st, ln):
+        # findtext(tag[, default]) : text of the first matching child ('' if it has no text), default (None) if absent
+        p, t = f.self_val, pos[0]
+        self.assumed_used.add('A-ET-FIND')
+        if t.py is not None and not t.py.replace('_', '').isalnum():
+            raise ToolLimit('ElementPath expression %r' % t.py)
+        dflt = pos[1] if len(pos) > 1 else kws.get('default', NONE)
+        dt = none_s if isinstance(dflt, SNone) else dflt.t
+        n = st.heap.find(p.t, t.t)
+        return [(st, SStr(z3.If(n == null, dt, z3.If(L.text(n) == none_s, self.W.lit(''), L.text(n)))))]
 
     def bi_Element_findall(self, f, pos, kws, st, ln):
         p = f.self_val
